@@ -358,6 +358,8 @@ def run(ctx):
     ctx.check(bool(conv64) and uncond, "C15.b", "TransformedHistogramMixin.transform:float64", "input converted to float64 unconditionally before the formulas",
               "transform no longer converts every input to float64 first: float32 points get coordinates of single precision and land in other bins "
               "than the same points entered through the facades", tr.where)
+    for mname in ("find_bin", "fill", "fill_n"):
+        wiring.wrapper_forwards(ctx, "C15.b", mix.methods[mname], consumed=("transformed",))
     vs = mix.methods.get("_validate_source_dimension")
     okv = any(end_kind(p) == "raise" and any(s[0] == "cond" and "value.shape[-1] not in source_ndims" in U(s[1]) and s[2] for s in p)
               for p in function_paths(vs.node))
@@ -371,6 +373,7 @@ def run(ctx):
              "weights with the extraction mask, forward all kernel results; aliases", 20)
     FAC = {"polar": "PolarHistogram", "azimuthal": "AzimuthalHistogram", "radial": "RadialHistogram", "spherical": "SphericalHistogram",
            "spherical_surface": "SphericalSurfaceHistogram", "cylindrical": "CylindricalHistogram", "cylindrical_surface": "CylindricalSurfaceHistogram"}
+    wiring.params_used(ctx, "C15.c", [f for f in sh.all_functions if not f.name.startswith("__")], "special_histograms:options-read")
     wiring.lossy_preallocation(ctx, "C15.c", [sh.functions[f] for f in FAC if f in sh.functions]
                                + [sh.functions[f] for f in ("extract_transformed_data",) if f in sh.functions], "facades:columns-promoted")
     for fname, kname in FAC.items():
@@ -390,6 +393,21 @@ def run(ctx):
         ctx.check(tf is not None and U(tf) == "transformed", "C15.c", f"{fname}:flag", "the caller's `transformed` flag is forwarded",
                   f"extract_transformed_data receives transformed={U(tf) if tf is not None else None}, not the facade's own flag "
                   "(already transformed input would be transformed again)", fi.where)
+        dn = kwarg(ex, "dropna")
+        ctx.check(dn is not None and U(dn) == "dropna", "C15.c", f"{fname}:dropna", "the caller's dropna decides whether NaN points are dropped at extraction",
+                  f"extract_transformed_data receives dropna={U(dn) if dn is not None else 'its default'}, not the facade's own option", fi.where)
+        cn = [kwarg(c, "check_nan") for c in calls_in(fi.node) if call_is(c, "calculate_nd_bins", "calculate_1d_bins")]
+        ctx.check(bool(cn) and all(x is not None and U(x) == "not dropna" for x in cn), "C15.c", f"{fname}:check_nan", "bins are computed with check_nan = not dropna",
+                  f"the NaN check of the bin calculation is {[U(x) if x is not None else None for x in cn]}, not `not dropna`", fi.where)
+        # an integer bin count for an angular axis becomes that many equal bins over the axis' range: linspace(*range, n + 1)
+        for ls in [c for c in calls_in(fi.node) if call_is(c, "linspace")]:
+            tgt = [U(n_.targets[0]) for n_ in ast.walk(fi.node) if isinstance(n_, ast.Assign) and n_.value is ls]
+            okl = len(ls.args) == 2 and isinstance(ls.args[0], ast.Starred) and tgt and U(ls.args[1]) == f"{tgt[0]} + 1"
+            guard = [n_ for n_ in ast.walk(fi.node) if isinstance(n_, ast.If) and any(isinstance(b, ast.Assign) and b.value is ls for b in n_.body)]
+            okg = bool(guard) and tgt and U(guard[0].test) == f"isinstance({tgt[0]}, int)"
+            ctx.check(bool(okl and okg), "C15.c", f"{fname}:int-bins:{tgt[0] if tgt else '?'}", "isinstance(b, int): b = linspace(*range, b + 1)",
+                      f"`{U(ls)[:60]}` under `{U(guard[0].test) if guard else None}`: an integer bin count must give n bins (n + 1 edges) over the range, "
+                      "for integers only", fi.where)
         # def-use: transformed array -> bins and kernel; weights through extract_weights(mask)
         verdict = {"bins": None, "kernel": None, "weights": None, "class": None}
         for path in function_paths(fi.node):
@@ -430,6 +448,31 @@ def run(ctx):
                 "class": f"built by {kname}.from_calculate_frequencies (or with all kernel results forwarded)"}
         for k, v in verdict.items():
             ctx.check(v is True, "C15.c", f"{fname}:{k}", msgs[k], f"{fname}(): NOT({msgs[k]})", fi.where)
+    # radial / azimuthal take their input either as separate Cartesian coordinates or, with transformed=True, as ONE array
+    for fname in ("azimuthal", "radial"):
+        fi = sh.functions[fname]
+        ex = [c for c in calls_in(fi.node) if call_is(c, "extract_transformed_data")][0]
+        res = {True: set(), False: set()}
+        for path in function_paths(fi.node):
+            if end_kind(path) != "return" or not consistent(path):
+                continue
+            cs = dict((U(s_[1]), s_[2]) for s_ in path if s_[0] == "cond")
+            if "transformed" not in cs:
+                continue
+            env = Env()
+            for s_ in path:
+                if s_[0] == "stmt" and any(c is ex for c in calls_in(s_[1])):
+                    break
+                env.step(s_)
+            res[cs["transformed"]].add(U(env.expand(ex.args[0], keep={"xdata", "ydata", "zdata"})))
+        okt = bool(res[True]) and all("concatenate" not in t and "ydata" not in t and "zdata" not in t and "xdata" in t for t in res[True])
+        okf = bool(res[False]) and all(("concatenate" in t and t.index("xdata") < t.index("ydata")) or t in ("xdata", "np.asarray(xdata)") for t in res[False]) \
+            and any("concatenate" in t for t in res[False])
+        ctx.check(okt and okf, "C15.c", f"{fname}:input-assembly", "transformed: the single array itself; otherwise the coordinates stacked as columns (x, y[, z])",
+                  f"data handed to the extraction: transformed -> {sorted(res[True])[:2]}, Cartesian -> {[t[:70] for t in sorted(res[False])][:2]}", fi.where)
+        n_mr, off_mr = must_raise(fi.node, lambda e: "ydata is not None" in U(e) and "xdata" not in U(e), when=True)
+        ctx.check(n_mr >= 1 and not off_mr, "C15.c", f"{fname}:extra-coordinates-refused", "extra positional coordinates with transformed / 3-column input are refused",
+                  "; ".join(off_mr[:2]) or "no such refusal", fi.where)
     for alias, val in sh.assigns.items():
         if isinstance(val, ast.Call) and call_is(val, "deprecation_alias") and len(val.args) == 2:
             target, name = U(val.args[0]), const_value(val.args[1])
